@@ -821,6 +821,7 @@ static Type *enum_specifier(Token **rest, Token *tok) {
   // Read an enum-list.
   int i = 0;
   int val = 0;
+  bool has_negative = false;
   while (!consume_end(rest, tok)) {
     if (i++ > 0)
       tok = skip(tok, ",");
@@ -831,10 +832,17 @@ static Type *enum_specifier(Token **rest, Token *tok) {
     if (equal(tok, "="))
       val = const_expr(&tok, tok->next);
 
+    has_negative = has_negative || val < 0;
     VarScope *sc = push_scope(name);
     sc->enum_ty = ty;
     sc->enum_val = val++;
   }
+
+  // As with the other compilers of the platform, an enumerated type
+  // without negative enumerators is compatible with unsigned int
+  // (the enumeration constants themselves are ints): a bit-field
+  // `enum E e : 2` can hold the value 3.
+  ty->is_unsigned = !has_negative;
 
   if (tag)
     push_tag_scope(tag, ty);
